@@ -451,6 +451,7 @@ def _do(resp, entry, name, value, spec, model):
     if entry == 'cookie':
         if spec['t'] == 'str' and not _valid_text(spec['v']):
             model.surrogates = True     # a cookie value that cannot be emitted: refusing / failing at emission is fine (U4)
+            model.unrepresentable.setdefault('set-cookie', []).append(name + '=')
         try:
             resp.set_cookie(name, value)
         except Exception:
@@ -516,6 +517,8 @@ def check_emitted(case, model, emitted, emission_failed, detail):
         valid = model.valid_offered.get(k.lower(), [])
         if d in valid or None in valid:
             continue
+        if k.lower() == 'set-cookie' and not any(d.startswith(c) for c in sur):
+            continue                    # another cookie
         if k.lower() == 'content-length' and d.isdigit():
             continue                    # the framework's own default
         if k.lower() == 'content-type' and d.lower().startswith('text/html'):
